@@ -747,8 +747,15 @@ class Lexer(object):
 
     # get and set are only keywords at the start of a property assignment
     # of an object initialiser (section 11.1.5), where a property name
-    # (IdentifierName, StringLiteral or NumericLiteral) follows them.
-    property_name_start = r'(?=\s+(?:' + identifier + r'''|['"0-9.]))'''
+    # (IdentifierName, StringLiteral or NumericLiteral) follows them;
+    # white space or comments may stand in between, and they must when
+    # the name would otherwise continue the word (an identifier part).
+    _separator = (
+        r'(?:[\s\ufeff]|/\*[^*]*\*+(?:[^/*][^*]*\*+)*/|'
+        r'//[^\r\n\u2028\u2029]*)')
+    property_name_start = (
+        r'(?=' + _separator + r'+(?:' + identifier + r'|[0-9])|' +
+        _separator + r'''*['".])''')
 
     def _accessor_or_identifier(self, token):
         if (self.cur_token is None or
